@@ -59,6 +59,7 @@ class Session(Thread):
         self._client_capabilities = capabilities
         self._server_capabilities = None # yet
         self._base = NetconfBase.BASE_10
+        self._hello_pending = False # set while the client <hello> is queued
         self._id = None # session-id
         self._connected = False # to be set/cleared by subclass implementation
         self.logger = SessionLoggerAdapter(logger, {'session': self})
@@ -112,6 +113,10 @@ class Session(Thread):
         self.add_listener(NotificationHandler(self._notification_q))
         listener = HelloHandler(ok_cb, err_cb)
         self.add_listener(listener)
+        # the <hello> is the first message in the queue; it must leave in
+        # end-of-message framing even if the base is switched before the
+        # transport becomes writable (RFC 6242, section 4.1)
+        self._hello_pending = True
         self.send(HelloHandler.build(self._client_capabilities, self._device_handler))
         self.logger.debug('starting main loop')
         self.start()
@@ -222,7 +227,11 @@ class Session(Thread):
                 if not q.empty() and self._send_ready():
                     self.logger.debug("Sending message")
                     data = q.get().encode()
-                    if self._base == NetconfBase.BASE_11:
+                    if self._hello_pending:
+                        # the client <hello> is never chunked
+                        self._hello_pending = False
+                        data = b"%s%s" % (data, MSG_DELIM)
+                    elif self._base == NetconfBase.BASE_11:
                         data = b"%s%s%s" % (start_delim(len(data)), data, END_DELIM)
                     else:
                         data = b"%s%s" % (data, MSG_DELIM)
